@@ -203,12 +203,20 @@ class SolverWrapper:
                 # HiGHS batched updates
                 import numpy as np  # local alias to ensure available
                 if self._pending_fix_vars:
-                    idxs = np.array([v.index for v in self._pending_fix_vars], dtype=np.int32)
-                    vals = np.array(self._pending_fix_vals, dtype=np.float64)
+                    # HiGHS rejects index sets with duplicates: keep the last request per variable
+                    last_fix = {}
+                    for v, val in zip(self._pending_fix_vars, self._pending_fix_vals):
+                        last_fix[v.index] = val
+                    idxs = np.array(list(last_fix.keys()), dtype=np.int32)
+                    vals = np.array(list(last_fix.values()), dtype=np.float64)
                     self.solver.changeColsBounds(len(idxs), idxs, vals, vals)
                 if self._pending_lb_vars:
-                    idxs = np.array([v.index for v in self._pending_lb_vars], dtype=np.int32)
-                    lbs  = np.array(self._pending_lb_vals, dtype=np.float64)
+                    # HiGHS rejects index sets with duplicates: keep the last request per variable
+                    last_lb = {}
+                    for v, val in zip(self._pending_lb_vars, self._pending_lb_vals):
+                        last_lb[v.index] = val
+                    idxs = np.array(list(last_lb.keys()), dtype=np.int32)
+                    lbs  = np.array(list(last_lb.values()), dtype=np.float64)
                     # Prefer dedicated lower bound update if available, else fall back to bounds change with UB unchanged
                     if hasattr(self.solver, "changeColsLower"):
                         self.solver.changeColsLower(len(idxs), idxs, lbs)
